@@ -10,7 +10,7 @@
     validated: the candidate itself (annotations stripped) or the named schema it refers to. *)
 From Coq Require Import String Lia.
 From FA Require Import model.Base model.Varint model.Value model.Schema model.Utf8 model.Float model.Codec
-                       model.Validate model.Write model.Read model.Conform proofs.ElabProofs.
+                       model.Validate model.Write model.Read model.Conform proofs.ElabProofs proofs.AcceptIff proofs.ClosureProofs proofs.ElabFloats.
 
 (** the chosen branch is one the datum validates against -- and therefore conforms to, in the sense of the
     independent predicate of C10 -- and the datum is written under it *)
@@ -127,15 +127,38 @@ Theorem C09_search_spec : forall val e v bs i best most j,
 Proof. exact choose_spec. Qed.
 Print Assumptions C09_search_spec.
 
-(* C09_closure (full statement, NOT proved):
-     forall f o e s v a pv, wf ... ->
-       elab f o e s v = WOk a ->                               (* a is in the image of the writer *)
-       py_of ro_named e s a = Some pv ->                       (* read with return_named_type=True *)
-       exists f', write f' o e s pv = WOk (wire a)             (* writing it back reproduces the identical bytes *)
-   needs, beyond the union node below: py_of/elab inversion for records (distinct field names), maps, arrays,
-   d2s (s2d x) = x for binary32 patterns, and re-validation of the normalised value for unnamed branches.  The clause is
-   evaluated on every applicable case by corr:closure (on the implementation, at byte level) and inside the model (the
-   CL field of run_c09: py_of then write then compare). *)
+(** closure: a well-typed wire value -- in particular whatever the writer wrote -- read with return_named_type=True and
+    written back under the same schema is elaborated to the SAME wire value: the identical bytes.  By induction over the
+    height, through records, arrays, maps, references and unions.  Side condition [closb n o e s a] (model/Conform.v), a
+    boolean decided by computation on (options, named schemas, schema, value):
+      - under a union, a value of a NAMED branch (record / enum / fixed, inline or by name): tuple notation is enabled and the
+        branch is the FIRST answering to its name (find_named): the names of the union's named branches do not clash;
+      - a value of an UNNAMED branch comes back as a plain normalised value and must re-resolve to the same branch under the
+        writer's search (the exclusion corr:closure applies: a bytearray written as "bytes" comes back as bytes and fits an
+        earlier fixed; see C09_closure_refuted);
+      - "float" leaves survive single -> double -> single (d2s (s2d x) = x: true of every pattern d2s produces; decided per
+        value here); an enum index is the first occurrence of its symbol; map keys / record field names are distinct. *)
+Theorem C09_closure : forall n o e s a pv,
+  typedn n e s a -> closb n o e s a = true -> py_of ro_named e s a = Some pv ->
+  exists f0, forall f, (f0 <= f)%nat -> elab f o e s pv = WOk a.
+Proof. exact closure. Qed.
+Print Assumptions C09_closure.
+
+Theorem C09_closure_bytes : forall n o e s a pv,
+  typedn n e s a -> closb n o e s a = true -> py_of ro_named e s a = Some pv ->
+  exists f0, forall f, (f0 <= f)%nat -> write f o e s pv = WOk (wire a).
+Proof. exact closure_bytes. Qed.
+Print Assumptions C09_closure_bytes.
+
+(** for what the writer wrote: write v; read the bytes (followed by anything) with return_named_type=True; write the result
+    back: the identical bytes.  (Typing of the written value through C01_elab_typed: Reals axioms + classic, allow-listed.) *)
+Theorem C09_closure_written : forall f o e s v a pv,
+  elab f o e s v = WOk a -> data_ok e s v -> closb f o e s a = true -> py_of ro_named e s a = Some pv ->
+  write f o e s v = WOk (wire a) /\
+  (forall f' r, (f <= f')%nat -> read f' ro_named e s (wire a ++ r)%list = Ok (pv, r)) /\
+  exists f0, forall f', (f0 <= f')%nat -> write f' o e s pv = WOk (wire a).
+Proof. exact closure_written. Qed.
+Print Assumptions C09_closure_written.
 
 (** OUTSIDE THE PROPERTY'S STATEMENT (a lemma about the model, not a defect): the statement's closure clause speaks
     about the (name, value) pairs returned for NAMED branches.  A value written under an UNNAMED branch comes back as a
@@ -154,7 +177,7 @@ Proof.
 Qed.
 Print Assumptions C09_closure_refuted.
 
-(** proved part: the union node.  A value read with return_named_type=True under a NAMED branch (record / enum / fixed
+(** the union node on its own.  A value read with return_named_type=True under a NAMED branch (record / enum / fixed
     inline, or a by-name reference) is the pair (name, value); written back with tuple notation it selects the same
     index -- no earlier branch answers to that name -- and the inner value is encoded under that branch again *)
 Theorem C09_closure_partial : forall f o e bs i b a pv0 pv,
@@ -203,3 +226,15 @@ Example C09_example :
   elab 9 o0 ex_env ex_u (PTuple [PStr (s2b "ns.B"); dict [("x", PInt 1); ("z", PInt 2); ("y", PNone)]])
     = WOk (AUnion 1 (ARecord [AInt 1; AUnion 1 (AInt 2); AUnion 0 ANull])).
 Proof. split; [|split; [|split; [|split; [|split; [|split; [|split; [|split; [|split; [|split]]]]]]]]]; vm_compute; reflexivity. Qed.
+
+(** non-vacuity of C09_closure: the side condition holds for a record branch reached by name inside a union inside an array
+    (with a nested optional-int union and a "double"), and it fails exactly where the statement does not apply: a value
+    written under "float" by a tuple hint re-resolves to "double"; bytes of the fixed's size re-resolve to the fixed *)
+Example C09_closure_example :
+  closb 9 o0 ex_env (SArray ex_u)
+    (AArray [AUnion 1 (ARecord [AInt 1; AUnion 1 (AInt 2); AUnion 0 ANull]); AUnion 4 (ADouble 4607182418800017408);
+             AUnion 3 (AString (s2b "s"))]) = true /\
+  closb 9 o0 ex_env ex_u (AUnion 2 (AFloat 1065353216)) = false /\
+  closb 9 o0 [] (SUnion [SNull; SFixed (s2b "F") [] 2; SBytes]) (AUnion 2 (ABytes [97; 98])) = false /\
+  closb 9 o0 [] (SUnion [SNull; SFixed (s2b "F") [] 2; SBytes]) (AUnion 2 (ABytes [97; 98; 99])) = true.
+Proof. split; [|split; [|split]]; vm_compute; reflexivity. Qed.
